@@ -5,7 +5,7 @@
    refused).  Equality with the serial build (C07_full_statement) is decided
    against the implementation on every run. *)
 From Coq Require Import ZArith List.
-From Redo Require Import Base.Bytes Build.Model Build.LocalProofs Sched.Locks Sched.LocksProofs.
+From Redo Require Import Base.Bytes Build.Model Build.LocalProofs Build.OnceProofs Sched.Locks Sched.LocksProofs.
 Import ListNotations.
 
 Theorem C07_one_running : forall es s,
@@ -47,6 +47,57 @@ Definition C07_full_statement : Prop :=
   forall (depth : nat) (h : list hstep), True (* for all-success projects every complete
      interleaving of one invocation ends with the files, exit status and dependency
      records of the serial build, each script having run at most once *).
+
+(* at most once per run, serially: a job that ends with status 0 leaves its row
+   "dealt with in this run" (changed_runid or checked_runid = this run) ... *)
+Theorem C07_success_marks_row : forall runid t f sf before rc stdout has_tmp w,
+  (0 < runid)%Z -> (f - 1 < length (rows (dbs w)))%nat ->
+  snd (record_new_state runid t f sf before rc stdout has_tmp w) = 0%Z ->
+  let r' := load runid (dbs (fst (record_new_state runid t f sf before rc stdout has_tmp w))) f in
+  (is_checked runid r' || is_changed runid r') = true.
+Proof. exact record_success_dealt_with. Qed.
+Check C07_success_marks_row : forall runid t f sf before rc stdout has_tmp w,
+  (0 < runid)%Z -> (f - 1 < length (rows (dbs w)))%nat ->
+  snd (record_new_state runid t f sf before rc stdout has_tmp w) = 0%Z ->
+  let r' := load runid (dbs (fst (record_new_state runid t f sf before rc stdout has_tmp w))) f in
+  (is_checked runid r' || is_changed runid r') = true.
+Print Assumptions C07_success_marks_row.
+
+(* ... and every further redo-ifchange of such a row in this run finds it clean
+   at once, starting no script -- whatever its dependencies look like now (a
+   dependency may have failed and been tolerated: finding F23) *)
+Theorem C07_dealt_with_not_again : forall rec fuel e t w chg,
+  let '(d0, f) := from_name (dbs w) t in
+  let r := load (e_runid e) d0 f in
+  r_failed r = None -> r_changed r = Some chg -> (chg <= e_runid e)%Z ->
+  (is_checked (e_runid e) r || is_changed (e_runid e) r) = true ->
+  start rec (S fuel) e MIfChange t w =
+    Ret (set_db w d0, if r_gen r then [EvUnchanged t] else [], 0%Z, false).
+Proof. exact start_dealt_with_this_run. Qed.
+Check C07_dealt_with_not_again : forall rec fuel e t w chg,
+  let '(d0, f) := from_name (dbs w) t in
+  let r := load (e_runid e) d0 f in
+  r_failed r = None -> r_changed r = Some chg -> (chg <= e_runid e)%Z ->
+  (is_checked (e_runid e) r || is_changed (e_runid e) r) = true ->
+  start rec (S fuel) e MIfChange t w =
+    Ret (set_db w d0, if r_gen r then [EvUnchanged t] else [], 0%Z, false).
+Print Assumptions C07_dealt_with_not_again.
+
+(* non-vacuity (F23): t tolerates the failure of d; p depends on t; one command
+   asks for p and t: t's script runs once (events: p, t, d -- not t again) *)
+Example C07_tolerant_once_example :
+  let mk deps p ex tol := {| s_deps := deps; s_ifcreate := []; s_always := false; s_stamp := false;
+                             s_out := OStdout; s_payload := p; s_cat := false; s_exit := ex; s_tol := tol |} in
+  let d := [100%N] in let t := [116%N] in let p := [112%N] in
+  let h := [SWriteDo (d ++ b_do) (mk [] 1%N 7%Z false); SWriteDo (t ++ b_do) (mk [d] 2%N 0%Z true);
+            SWriteDo (p ++ b_do) (mk [t] 3%N 0%Z false);
+            SCmd (CIfChange true [p; t; p])] in
+  map (fun x => match snd x with
+                | Some (OutBuild evs rc) => Some (length (filter (fun e => match e with EvRun _ _ _ _ => true | _ => false end) evs), rc)
+                | _ => None end)
+      (run_history h (init_world 0))
+  = [None; None; None; Some (3%nat, 0%Z)].
+Proof. vm_compute. reflexivity. Qed.
 
 (* non-vacuity: a diamond on the serial model: the shared base runs once *)
 Local Open Scope N_scope.
